@@ -15,8 +15,9 @@ import (
 const SigFallThrough = "C04-lower-tier-overrides-veto"
 
 type stash struct {
-	evidence []int64
+	evidence  []int64
 	multiTier bool
+	capOnly   bool // reclaim only, one tier, capacity voting in it: every eviction went through its vote
 }
 
 // evidence for the laws: one record per accepted evictor call + the final task states
@@ -92,6 +93,8 @@ func (w *World) evidence(choices []Choice) []int64 {
 			out = append(out, o.ID, o.Status, o.JobReady)
 			out = append(out, o.QAlloc...)
 		}
+		out = append(out, int64(len(a.QOrder)))
+		out = append(out, a.QOrder...)
 	}
 	out = append([]int64{int64(n)}, out...)
 	ids := w.taskIDs()
@@ -100,6 +103,18 @@ func (w *World) evidence(choices []Choice) []int64 {
 		out = append(out, sched.EncTaskBrief(w.Tasks[id])...)
 	}
 	return out
+}
+
+func capOnly(spec Spec) bool {
+	if len(spec.Actions) != 1 || spec.Actions[0] != 2 || len(spec.Tiers) != 1 {
+		return false
+	}
+	for _, p := range spec.Tiers[0] {
+		if p.Kind == KCap && p.Rec {
+			return true
+		}
+	}
+	return false
 }
 
 func runCycle(spec Spec) (*World, []Choice) {
@@ -116,7 +131,7 @@ func Harness() vh.Harness {
 		switch sel {
 		case 1:
 			w := NewWorld(spec)
-			limits := w.QueueLimits()
+			limits := append(w.QueueLimits(), w.CapLimits()...)
 			w.RunActions()
 			choices := w.Reconstruct()
 			if os.Getenv("C04_DEBUG") != "" {
@@ -151,19 +166,20 @@ func Harness() vh.Harness {
 			}
 			got = append(got, -102)
 			got = append(got, w.EncFinal()...)
-			last = stash{evidence: append(append([]int64{}, modelIn[:base]...), w.evidence(choices)...), multiTier: len(spec.Tiers) > 1}
+			last = stash{evidence: append(append([]int64{}, modelIn[:base]...), w.evidence(choices)...), multiTier: len(spec.Tiers) > 1, capOnly: capOnly(spec)}
 			return modelIn, got
 		case 2:
 			reclaim := r.Bool()
 			pid := r.Next()
 			cands := r.Ints()
 			w := NewWorld(spec)
-			limits := w.QueueLimits()
+			limits := append(w.QueueLimits(), w.CapLimits()...)
 			p := w.Tasks[pid]
 			cl := []*api.TaskInfo{}
 			for _, c := range cands {
 				cl = append(cl, w.Tasks[c].Clone())
 			}
+			qorder := PopOrder(w.Ssn, p, cl)
 			var vs []*api.TaskInfo
 			if reclaim {
 				vs = w.Ssn.Reclaimable(p, cl)
@@ -179,6 +195,8 @@ func Harness() vh.Harness {
 			modelIn = append(modelIn, b2i(reclaim), pid, int64(len(cands)))
 			modelIn = append(modelIn, cands...)
 			modelIn = append(modelIn, limits...)
+			modelIn = append(modelIn, int64(len(qorder)))
+			modelIn = append(modelIn, qorder...)
 			got := []int64{-103, int64(len(ids))}
 			got = append(got, ids...)
 			last = stash{}
@@ -195,6 +213,9 @@ func Harness() vh.Harness {
 		law(103, last.evidence, "")
 		law(105, last.evidence, "")
 		law(106, last.evidence, "")
+		if last.capOnly {
+			law(107, last.evidence, "")
+		}
 		sig := ""
 		if last.multiTier {
 			sig = SigFallThrough
@@ -204,7 +225,14 @@ func Harness() vh.Harness {
 	gen := func(rng *vh.Rng, n int, emit func(id string, sel int, in []int64, kind string, nontrivial bool, desc any)) {
 		for i := 0; i < n; i++ {
 			r := rng.Fork()
-			spec := GenSpec(r)
+			var spec Spec
+			if i == 0 {
+				spec = CapGapWitness()
+			} else if i%6 == 5 {
+				spec = GenCapStage(r)
+			} else {
+				spec = GenSpec(r)
+			}
 			// classify by what the real actions did (the case itself is re-run from its tokens)
 			var w *World
 			var choices []Choice
